@@ -287,7 +287,7 @@ LEVEL_DIFF = ('differential bounded symbolic execution of the real code: two (or
 def djob(mode, rule, opts, n, seats, maxlen, N, budget=300, **kw):
     d = dict(kind='diff', mode=mode, rule=rule, opts=dict(opts), n=n, seats=seats, maxlen=maxlen, N=N, budget_s=budget, weight=kw.pop('weight', 2))
     d['name'] = '%s %s %s n=%d seats=%d len<=%d N<=%d %s' % (mode, rule, ','.join('%s=%s' % kv for kv in sorted(opts.items())), n, seats, maxlen, N,
-                                                          ' '.join('%s=%s' % kv for kv in sorted(kw.items()) if kv[0] not in ('optionsA', 'optionsB')))
+                                                          ' '.join('%s=%s' % kv for kv in sorted(kw.items()) if kv[0] not in ('optionsA', 'optionsB', 'batch')))
     d.update(kw)
     return d
 
@@ -307,6 +307,27 @@ def C10(tier):
     # comparison statistics printed under guarded arithmetic: a zero-free universe (every line and every part exists in the file)
     for rule, opts in [('wigm', grid.G44), ('meek', dict(grid.G44, omega=2)), ('warren', dict(grid.G44, omega=2))]:
         jobs.append(djob('split', rule, opts, 3, 2, 2, 8 if quick else 10, nozero=True, lines=['1 2', '2 1', '3'], budget=300 if quick else 1500))
+    # zero-free supports: every pair (thorough: also triple) of distinct rankings, each line present with multiplicity >= 1 and
+    # split (both parts present) or not -- no ballot line of multiplicity 0 exists in these runs
+    import itertools
+    from harness.universe import all_rankings
+    sup_rules = [('wigm', grid.FX2), ('wigm-prf', {}), ('cfer', {}), ('scotland', {}), ('mpls', {}), ('meek', FX3), ('qpq', {})]
+    if not quick:
+        sup_rules = RULE_CFGS
+    for (n, seats, maxlen, Nn) in ([(4, 3, 2, 5)] if quick else [(4, 3, 3, 5), (3, 2, 3, 6)]):
+        lines = all_rankings(n, maxlen)
+        batch = []
+        for a, b in itertools.combinations(range(len(lines)), 2):
+            for mask in ([1, 0], [0, 1], [1, 1]):
+                batch.append(dict(lines=[lines[a], lines[b]], splitmask=mask))
+        if not quick and n == 3:
+            for a, b, c in itertools.combinations(range(len(lines)), 3):
+                batch.append(dict(lines=[lines[a], lines[b], lines[c]], splitmask=[1, 1, 1]))
+        nchunk = 2 if quick else 8
+        for rule, opts in sup_rules:
+            for k in range(nchunk):
+                jobs.append(djob('split', rule, opts, n, seats, maxlen, Nn, nozero=True, batch=batch[k::nchunk], validate_every=5,
+                                 budget=300 if quick else 1500, chunk='%d/%d of %d zero-free supports' % (k + 1, nchunk, len(batch)), weight=4))
     tj = _layout_jobs(tier)
     return dict(jobs=jobs + tj, level_text=LEVEL_DIFF + '; plus token-mode layout variants of the reader (see C15)', assumptions=DIFF_ASSUME + TOKEN_ASSUME,
                 require_reach=['pair-compared', 'layout-compared'],
